@@ -2,7 +2,6 @@
 package c01
 
 import (
-	"encoding/json"
 	"fmt"
 	"math/big"
 	"sort"
@@ -33,26 +32,21 @@ type step struct {
 }
 
 type machine struct {
+	*bridge.Machine
 	t          *rapid.T
 	r          *rec.Recorder
 	w          *bridge.World
-	hist       []step
-	accepted   int // accepted messages so far (any kind)
 	acceptedAt map[bridge.Triple]int
 	replays    map[string]bool
 	nontrivial bool
 	tssPayload map[bridge.Triple]string
 }
 
-func (m *machine) log(op, arg, res string) { m.hist = append(m.hist, step{op, arg, res}) }
-
-func (m *machine) render() string {
-	bz, _ := json.Marshal(m.hist)
-	return string(bz)
-}
+func (m *machine) log(op, arg, res string) { m.Log(op, arg, res) }
 
 func (m *machine) failf(format string, a ...interface{}) {
-	m.t.Fatalf("%s\nhistory=%s", fmt.Sprintf(format, a...), m.render())
+	m.Machine.T = m.t
+	m.Failf(format, a...)
 }
 
 func short(s string) string {
@@ -64,91 +58,9 @@ func short(s string) string {
 
 // ---- actions
 
-func (m *machine) send(t *rapid.T) {
-	w := m.w
-	n := len(w.Chains)
-	src := rapid.IntRange(0, n-1).Draw(t, "src")
-	dst := rapid.IntRange(0, n-2).Draw(t, "dst")
-	if dst >= src {
-		dst++
-	}
-	user := rapid.IntRange(0, 1).Draw(t, "user")
-	// candidate tokens on src the user may hold
-	toks := []common.Address{w.Tok[src]}
-	if src == 0 {
-		toks = append(toks, common.Address{}, w.Unbound)
-	} else {
-		toks = append(toks, w.NTok[src])
-	}
-	tok := rapid.SampledFrom(toks).Draw(t, "token")
-	amt := big.NewInt(rapid.Int64Range(1, 500).Draw(t, "amount"))
-	fee := big.NewInt(rapid.Int64Range(0, 3).Draw(t, "fee"))
-	call := rapid.SampledFrom([]string{"", "", "", "ok", "revert", "hookfail"}).Draw(t, "call")
-	recv := strings.ToLower(w.Users[rapid.IntRange(0, 1).Draw(t, "receiver")].Addr.String())
-	out := w.Send(bridge.SendSpec{Src: src, DstName: w.Chains[dst].ChainID, User: user, Token: tok, Amount: amt, Fee: fee, Receiver: recv, Call: call}, false)
-	m.log("send", fmt.Sprintf("%d>%d tok=%s amt=%s call=%s", src, dst, tokName(w, src, tok), amt, call), fmt.Sprintf("ok=%v pk=%d", out.OK, len(out.Pkts)))
-	if out.OK {
-		m.r.Label("send_ok")
-	}
-}
-
-func tokName(w *bridge.World, c int, a common.Address) string {
-	switch a {
-	case w.Tok[c]:
-		return "lineage"
-	case common.Address{}:
-		return "native"
-	case w.Unbound:
-		return "unbound"
-	case w.NTok[c]:
-		return "wrapped-native"
-	case w.TTok[c]:
-		return "tss"
-	}
-	return a.Hex()
-}
-
-func (m *machine) tick(t *rapid.T) {
-	m.w.Tick()
-	m.log("tick", "", "")
-}
-
-func (m *machine) update(t *rapid.T) {
-	w := m.w
-	n := len(w.Chains)
-	on := rapid.IntRange(0, n-1).Draw(t, "on")
-	of := rapid.IntRange(0, n-2).Draw(t, "of")
-	if of >= on {
-		of++
-	}
-	c, o := w.Chains[on], w.Chains[of]
-	if c.ClientHeight(o.ChainID) >= o.LastHeader.Header.Height {
-		t.Skip("client already at head")
-	}
-	rel := w.Rels[rapid.IntRange(0, 1).Draw(t, "rel")]
-	res := c.Deliver(rel, c.MsgUpdateTMClient(o, o.LastHeader.Header.Height, rel.Acc))
-	if !res.OK() {
-		m.failf("positive control: client update of %s on %s by a registered relayer with the latest header rejected: %s", o.ChainID, c.ChainID, short(res.Log))
-	}
-	m.accepted++
-	m.log("update", fmt.Sprintf("%d<-%d h=%d", on, of, o.LastHeader.Header.Height), "ok")
-}
-
-func (m *machine) pending() []*bridge.Pkt {
-	var out []*bridge.Pkt
-	for _, p := range m.w.Pkts {
-		if !p.Received && p.DstIdx >= 0 && p.SrcIdx >= 0 {
-			if len(m.w.ProofHeightsFor(p.DstIdx, p.SrcIdx, p.SentAt)) > 0 {
-				out = append(out, p)
-			}
-		}
-	}
-	return out
-}
-
 func (m *machine) recvFresh(t *rapid.T) {
 	w := m.w
-	ps := m.pending()
+	ps := m.Pending()
 	if len(ps) == 0 {
 		t.Skip("nothing deliverable")
 	}
@@ -176,25 +88,15 @@ func (m *machine) recvFresh(t *rapid.T) {
 		m.failf("positive control: first receive of genuine packet %s (valid proof at stored height %d, registered relayer) rejected: %s", p.T, h, short(o.Res.Log))
 	}
 	w.NoteRecv(p.DstIdx, p, o.Res, rel)
-	m.accepted++
-	m.acceptedAt[p.T] = m.accepted
+	m.Accepted++
+	m.acceptedAt[p.T] = m.Accepted
 	m.r.Label("first_receive_" + enc)
 	m.log("recvFresh", fmt.Sprintf("%s h=%d %s call=%s", p.T, h, enc, p.Call), fmt.Sprintf("ack code=%d", p.Ack.Code))
 }
 
-func (m *machine) receivedPkts() []*bridge.Pkt {
-	var out []*bridge.Pkt
-	for _, p := range m.w.Pkts {
-		if p.Received && p.SrcIdx >= 0 && p.DstIdx >= 0 {
-			out = append(out, p)
-		}
-	}
-	return out
-}
-
 func (m *machine) replay(t *rapid.T) {
 	w := m.w
-	ps := m.receivedPkts()
+	ps := m.ReceivedPkts()
 	if len(ps) == 0 {
 		t.Skip("nothing accepted yet")
 	}
@@ -237,7 +139,7 @@ func (m *machine) replay(t *rapid.T) {
 		msgs = append(msgs, w.RecvMsg(p, p.Bz, hs[len(hs)-1], rel.Acc))
 	}
 	o := w.DeliverDumped(p.DstIdx, rel, msgs...)
-	sep := m.accepted - m.acceptedAt[p.T]
+	sep := m.Accepted - m.acceptedAt[p.T]
 	place := "later"
 	if p.RecvAt == w.Chains[p.DstIdx].Header.Height {
 		place = "same-block"
@@ -265,7 +167,7 @@ func (m *machine) replay(t *rapid.T) {
 // triple must fail as a whole and accept nothing.
 func (m *machine) freshTwiceOneTx(t *rapid.T) {
 	w := m.w
-	ps := m.pending()
+	ps := m.Pending()
 	if len(ps) == 0 {
 		t.Skip("nothing deliverable")
 	}
@@ -285,29 +187,6 @@ func (m *machine) freshTwiceOneTx(t *rapid.T) {
 	}
 	m.r.Label("fresh_twice_one_tx")
 	m.log("freshTwiceOneTx", p.T.String(), "rejected, state unchanged")
-}
-
-func (m *machine) ack(t *rapid.T) {
-	w := m.w
-	var cands []*bridge.Pkt
-	for _, p := range m.receivedPkts() {
-		if !p.Acked && len(p.AckBz) > 0 && len(w.ProofHeightsFor(p.SrcIdx, p.DstIdx, p.RecvAt)) > 0 {
-			cands = append(cands, p)
-		}
-	}
-	if len(cands) == 0 {
-		t.Skip("no ack relayable")
-	}
-	p := cands[rapid.IntRange(0, len(cands)-1).Draw(t, "pkt")]
-	hs := w.ProofHeightsFor(p.SrcIdx, p.DstIdx, p.RecvAt)
-	rel := w.Rels[rapid.IntRange(0, 1).Draw(t, "rel")]
-	res := w.Chains[p.SrcIdx].Deliver(rel, kit.MsgAck(w.Chains[p.DstIdx], p.Bz, p.AckBz, hs[len(hs)-1], rel.Acc))
-	if res.OK() {
-		p.Acked = true
-		m.accepted++
-		m.r.Label("ack_relayed")
-	}
-	m.log("ack", p.T.String(), fmt.Sprintf("ok=%v", res.OK()))
 }
 
 // tssInject: the TSS account delivers packets of the pseudo counterparty; a second packet under an
@@ -344,7 +223,7 @@ func (m *machine) tssInject(t *rapid.T) {
 			m.failf("rejected TSS replay (%s) of %s changed state:\n%s", kind, tr, o.DiffString())
 		}
 		m.r.Label("replay_tss_" + kind)
-		if m.accepted-m.acceptedAt[tr] >= 1 {
+		if m.Accepted-m.acceptedAt[tr] >= 1 {
 			m.nontrivial = true
 			m.replays["tss-"+kind] = true
 		}
@@ -356,8 +235,8 @@ func (m *machine) tssInject(t *rapid.T) {
 	}
 	w.Accepted[ci][tr] = true
 	m.tssPayload[tr] = payload
-	m.accepted++
-	m.acceptedAt[tr] = m.accepted
+	m.Accepted++
+	m.acceptedAt[tr] = m.Accepted
 	delta := new(big.Int).Sub(c.ERC20Balance(w.TTok[ci], recvr.Addr), balB)
 	if delta.Cmp(big.NewInt(amt)) != 0 {
 		m.failf("first TSS-injected transfer %s credited %s instead of %d", tr, delta, amt)
@@ -398,25 +277,29 @@ func (m *machine) check(t *rapid.T) {
 }
 
 func run(t *rapid.T, r *rec.Recorder) {
-	n := rapid.SampledFrom([]int{2, 2, 3}).Draw(t, "chains")
-	seed := rapid.SliceOfN(rapid.Byte(), 4, 4).Draw(t, "seed")
-	m := &machine{t: t, r: r, w: bridge.NewWorld(n, seed), acceptedAt: map[bridge.Triple]int{}, replays: map[string]bool{}, tssPayload: map[bridge.Triple]string{}}
+	bm := bridge.NewMachine(t, r)
+	m := &machine{Machine: bm, t: t, r: r, w: bm.W, acceptedAt: map[bridge.Triple]int{}, replays: map[string]bool{}, tssPayload: map[bridge.Triple]string{}}
+	wrap := func(f func(*rapid.T)) func(*rapid.T) {
+		return func(t *rapid.T) { m.t = t; bm.T = t; f(t) }
+	}
+	bm.OnRecv = func(p *bridge.Pkt, o bridge.TxOutcome) { m.acceptedAt[p.T] = bm.Accepted }
 	acts := map[string]func(*rapid.T){
-		"send":            func(t *rapid.T) { m.t = t; m.send(t) },
-		"send2":           func(t *rapid.T) { m.t = t; m.send(t) },
-		"tick":            func(t *rapid.T) { m.t = t; m.tick(t) },
-		"tick2":           func(t *rapid.T) { m.t = t; m.tick(t) },
-		"update":          func(t *rapid.T) { m.t = t; m.update(t) },
-		"update2":         func(t *rapid.T) { m.t = t; m.update(t) },
-		"recvFresh":       func(t *rapid.T) { m.t = t; m.recvFresh(t) },
-		"recvFresh2":      func(t *rapid.T) { m.t = t; m.recvFresh(t) },
-		"replay":          func(t *rapid.T) { m.t = t; m.replay(t) },
-		"replay2":         func(t *rapid.T) { m.t = t; m.replay(t) },
-		"replay3":         func(t *rapid.T) { m.t = t; m.replay(t) },
-		"freshTwiceOneTx": func(t *rapid.T) { m.t = t; m.freshTwiceOneTx(t) },
-		"ack":             func(t *rapid.T) { m.t = t; m.ack(t) },
-		"tssInject":       func(t *rapid.T) { m.t = t; m.tssInject(t) },
-		"":                func(t *rapid.T) { m.t = t; m.check(t) },
+		"send":            wrap(bm.ActSend),
+		"send2":           wrap(bm.ActSend),
+		"tick":            wrap(bm.ActTick),
+		"tick2":           wrap(bm.ActTick),
+		"update":          wrap(bm.ActUpdate),
+		"update2":         wrap(bm.ActUpdate),
+		"recvFresh":       wrap(m.recvFresh),
+		"recvFresh2":      wrap(m.recvFresh),
+		"replay":          wrap(m.replay),
+		"replay2":         wrap(m.replay),
+		"replay3":         wrap(m.replay),
+		"freshTwiceOneTx": wrap(m.freshTwiceOneTx),
+		"ack":             wrap(bm.ActAck),
+		"limit":           wrap(bm.ActLimit),
+		"tssInject":       wrap(m.tssInject),
+		"":                wrap(m.check),
 	}
 	t.Repeat(acts)
 	var ks []string
@@ -424,7 +307,7 @@ func run(t *rapid.T, r *rec.Recorder) {
 		ks = append(ks, k)
 	}
 	sort.Strings(ks)
-	r.Case(fmt.Sprintf("n=%d replays=%v", n, ks), m.nontrivial, func() interface{} { return m.hist })
+	r.Case(fmt.Sprintf("n=%d replays=%v", len(m.w.Chains), ks), m.nontrivial, func() interface{} { return bm.Hist })
 }
 
 func TestC01_ExactlyOnce(t *testing.T) {
